@@ -700,7 +700,7 @@ def chmodM (env : Env) (path : Str) (c : ChmodOpts) : M Unit := do
   let preOp : Entry → State → Outcome Unit × State := fun x st =>
     match Chmod.mode (ekind x) x.mode c.dirs c.sym with
     | .ok m1 =>
-      if (!x.link ∨ c.follow) ∧ x.dir ∧ !Chmod.revokingMode x.mode m1 ∧ x.mode ≠ m1 then
+      if (!x.link ∨ c.follow) ∧ x.dir ∧ m1 ≠ 0 ∧ !Chmod.revokingMode x.mode m1 ∧ x.mode ≠ m1 then
         match alLookup x.path st.entries with
         | some e => (.ok (), { st with entries := alInsert x.path (e.setMode m1) st.entries })
         | none => (.ok (), st)
